@@ -209,7 +209,7 @@ func c17Cases(c *Ctx, emit func(helperCase)) {
 	rng := c.RNG.Fork(17)
 	// 64-bit values
 	vals := append([]uint64{}, gen.Counters...)
-	for i := 0; i < c.N(3000, 100000); i++ {
+	for i := 0; i < c.N(100000, 3000000); i++ {
 		vals = append(vals, rng.U64()>>uint(rng.Intn(64)))
 	}
 	for _, v := range vals {
@@ -232,18 +232,17 @@ func c17Cases(c *Ctx, emit func(helperCase)) {
 		}
 	}
 	// strings of length 0..300 from the character classes
-	for n := 0; n <= 300; n++ {
-		for cl := 0; cl < 5; cl++ {
-			if !c.Thorough && n > 40 && (n+cl)%5 != 0 {
-				continue
+	for rep := 0; rep < c.N(3, 40); rep++ {
+		for n := 0; n <= 300; n++ {
+			for cl := 0; cl < 5; cl++ {
+				s := classString(rng, n, cl)
+				emit(helperCase{Op: "ParseDecimalToBigEndian8", S: []string{s}})
+				emit(helperCase{Op: "ParseDecimal64BigEndian", S: []string{s}})
+				emit(helperCase{Op: "ParseDecimalChallengeRFC6287", S: []string{s}})
+				emit(helperCase{Op: "ParseHexTimestamp", S: []string{s}})
+				emit(helperCase{Op: "LeftPadHex", S: []string{s}, N: gen.Pick(rng, []int{0, 1, 8, 16, 32, 256, 257, 1 << 10, n, n + 1, n - 1 + 1})})
+				emit(helperCase{Op: "MustHexPadLeft", S: []string{s}, N: gen.Pick(rng, []int{0, 1, 4, 8, 20, 64, 128, n / 2, n/2 + 1})})
 			}
-			s := classString(rng, n, cl)
-			emit(helperCase{Op: "ParseDecimalToBigEndian8", S: []string{s}})
-			emit(helperCase{Op: "ParseDecimal64BigEndian", S: []string{s}})
-			emit(helperCase{Op: "ParseDecimalChallengeRFC6287", S: []string{s}})
-			emit(helperCase{Op: "ParseHexTimestamp", S: []string{s}})
-			emit(helperCase{Op: "LeftPadHex", S: []string{s}, N: gen.Pick(rng, []int{0, 1, 8, 16, 32, 256, 257, 1 << 10, n, n + 1, n - 1 + 1})})
-			emit(helperCase{Op: "MustHexPadLeft", S: []string{s}, N: gen.Pick(rng, []int{0, 1, 4, 8, 20, 64, 128, n / 2, n/2 + 1})})
 		}
 	}
 	emit(helperCase{Op: "LeftPadHex", S: []string{"abc"}, N: 1 << 20})
@@ -273,7 +272,7 @@ func c17Cases(c *Ctx, emit func(helperCase)) {
 		}
 		emit(helperCase{Op: "HexInputToOCRA", S: f[:]})
 	}
-	for i := 0; i < c.N(500, 20000); i++ {
+	for i := 0; i < c.N(20000, 500000); i++ {
 		var f [5]string
 		for j := range f {
 			f[j] = fmt.Sprintf("%x", rng.Bytes(rng.Intn(140)))
@@ -288,7 +287,7 @@ func c17Cases(c *Ctx, emit func(helperCase)) {
 	}
 	// numeric questions end to end: every length 1..64, leading zeros, odd hex lengths
 	for n := 1; n <= 64; n++ {
-		for rep := 0; rep < c.N(6, 60); rep++ {
+		for rep := 0; rep < c.N(60, 1500); rep++ {
 			q := classString(rng, n, 0)
 			if rep%3 == 0 {
 				q = "0" + q[1:]
@@ -311,9 +310,9 @@ func init() {
 		Rule: "each helper is run on 64-bit boundary and random values, special texts, and strings of length 0..300 drawn from digit / hex / sign+space / letter classes, and compared with independent encoders (value-exact for valid text, error or documented panic for malformed text); HexInputToOCRA on all 3^5 valid/invalid/empty combinations; decimal questions of every length 1..64 go through ParseDecimalChallengeRFC6287 + GenerateOCRA and must equal the RFC 6287 reference for numeric-challenge suites of every hash and digit count; " +
 			"distinct_nontrivial counts distinct (helper, arguments) cases",
 		Run: func(c *Ctx) {
-			var cases []helperCase
-			c17Cases(c, func(k helperCase) { cases = append(cases, k) })
-			parallelJudge(c, cases, judgeHelper)
+			b := newBatcher(c, judgeHelper, 0)
+			c17Cases(c, b.add)
+			b.flush()
 		},
 		Replay: func(c *Ctx, kind string, raw json.RawMessage) error {
 			return replayAs(raw, func(k helperCase) { judgeHelper(c, k) })
